@@ -205,6 +205,28 @@ def ref_check_reader(case, impl):
                     fails.append(("reader-cstring", f"{op} at {pos} of {hexs}: expected x{s.hex()} ending at {end}, got {o}"))
             elif ok:
                 fails.append(("reader-cstring-invalid", f"{op} at {pos} of {hexs}: invalid UTF-8 accepted: {o}"))
+        elif head == "sl":
+            # length-prefixed: one length byte, then that many bytes (or what there is of them); the text is what
+            # precedes the first delimiter inside them, the rest is padding that is consumed and never interpreted
+            d = int(op.split(":")[1], 16) if ":" in op else 0
+            if pos < len(data):
+                n = min(data[pos], len(data) - pos - 1)
+                body_b = data[pos + 1:pos + 1 + n]
+                i = body_b.find(bytes([d]))
+                text = body_b if i < 0 else body_b[:i]
+                end = pos + 1 + n
+                try:
+                    text.decode("utf-8")
+                    valid = True
+                except UnicodeDecodeError:
+                    valid = False
+                if valid:
+                    if not ok or val != "x" + text.hex() or p2 != end:
+                        fails.append(("reader-lenstring", f"{op} at {pos} of {hexs}: expected x{text.hex()} ending at {end}, got {o}"))
+                elif ok:
+                    fails.append(("reader-lenstring-invalid", f"{op} at {pos} of {hexs}: invalid UTF-8 accepted: {o}"))
+            elif ok or p2 != pos:
+                fails.append(("reader-lenstring-fail", f"{op} at {pos} of {hexs}: expected failure leaving position, got {o}"))
         elif head in ("s16l", "s16b"):
             d = bytes.fromhex(op.split(":")[1]) if ":" in op else b"\0\0"
             sl = data[pos:]
